@@ -233,6 +233,17 @@ theorem leafIds_chain (ss : List (View ν α)) (along : Nat) :
   simp only [View.leafIds, View.leaves, leavesList_eq, idsOf, List.map_flatten, List.map_map]
   rfl
 
+theorem mem_leavesList {ss : List (View ν α)} {k : Nat} (hk : k < ss.length) {x : Nat × List α}
+    (hx : x ∈ (ss[k]).leaves) : x ∈ leavesList ss := by
+  rw [leavesList_eq]
+  simp only [List.mem_flatten, List.mem_map]
+  exact ⟨_, ⟨ss[k], List.getElem_mem hk, rfl⟩, hx⟩
+
+theorem leafIds_of_mem {v : View ν α} {c : Nat} {data : List α} (h : (c, data) ∈ v.leaves) :
+    c ∈ v.leafIds := by
+  simp only [View.leafIds, List.mem_map]
+  exact ⟨(c, data), h, rfl⟩
+
 theorem mem_idsOf {ss : List (View ν α)} {k : Nat} (hk : k < ss.length) {x : Nat}
     (hx : x ∈ (ss[k]).leafIds) : x ∈ idsOf ss := by
   simp only [idsOf, List.mem_flatten, List.mem_map]
@@ -282,12 +293,13 @@ theorem idsOf_disjoint {ss : List (View ν α)} (h : (idsOf ss).Nodup) {k k' : N
 
 /-- What the induction establishes for one view. -/
 def Resolves (v : View ν α) : Prop :=
-  (∀ idx, inBounds (lens v.shape) idx = true → ∃ c, v.specCell idx = some c ∧ c.1 ∈ v.leafIds) ∧
+  (∀ idx, inBounds (lens v.shape) idx = true →
+    ∃ c, v.specCell idx = some c ∧ ∃ data, (c.1, data) ∈ v.leaves ∧ c.2 < data.length) ∧
   (v.leafIds.Nodup → ∀ a b, inBounds (lens v.shape) a = true → inBounds (lens v.shape) b = true →
     v.specCell a = v.specCell b → a = b)
 
 theorem resolves_unary {s v : View ν α} (hs : Resolves s) (f : List Nat → List Nat)
-    (hcell : ∀ idx, v.specCell idx = s.specCell (f idx)) (hids : v.leafIds = s.leafIds)
+    (hcell : ∀ idx, v.specCell idx = s.specCell (f idx)) (hids : v.leaves = s.leaves)
     (m1 : ∀ idx, inBounds (lens v.shape) idx = true → inBounds (lens s.shape) (f idx) = true)
     (m2 : ∀ a b, inBounds (lens v.shape) a = true → inBounds (lens v.shape) b = true →
       f a = f b → a = b) : Resolves v := by
@@ -297,21 +309,33 @@ theorem resolves_unary {s v : View ν α} (hs : Resolves s) (f : List Nat → Li
     exact hs.1 _ (m1 idx hin)
   · intro hn a b ha hb h
     rw [hcell, hcell] at h
-    exact m2 a b ha hb (hs.2 (hids ▸ hn) _ _ (m1 a ha) (m1 b hb) h)
+    have hn' : s.leafIds.Nodup := by simpa [View.leafIds, hids] using hn
+    exact m2 a b ha hb (hs.2 hn' _ _ (m1 a ha) (m1 b hb) h)
 
-theorem resolves_tensor (id : Nat) (t : Tensor ν α) : Resolves (View.tensor id t) := by
+theorem resolves_tensor (id : Nat) (t : Tensor ν α) (hw : (View.tensor id t).WF) :
+    Resolves (View.tensor id t) := by
+  simp only [View.WF] at hw
   constructor
-  · intro idx _
-    exact ⟨_, rfl, by simp [View.leafIds, View.leaves]⟩
+  · intro idx hin
+    simp only [View.shape] at hin
+    refine ⟨_, rfl, t.data, by simp [View.leaves], ?_⟩
+    have := ravel_lt _ _ hin
+    rw [hw.2.2.1]; exact this
   · intro _ a b ha hb h
     simp only [View.specCell, Option.some.injEq, Prod.mk.injEq, true_and] at h
     simp only [View.shape] at ha hb
     exact ravel_injective _ a b ha hb h
 
-theorem resolves_matrix (id : Nat) (m : Matrix α) (r c : ν) : Resolves (View.matrix id m r c) := by
+theorem resolves_matrix (id : Nat) (m : Matrix α) (r c : ν) (hw : (View.matrix id m r c).WF) :
+    Resolves (View.matrix id m r c) := by
+  simp only [View.WF] at hw
   constructor
-  · intro idx _
-    exact ⟨_, rfl, by simp [View.leafIds, View.leaves]⟩
+  · intro idx hin
+    simp only [View.shape, lens_cons, lens_nil] at hin
+    refine ⟨_, rfl, m.data, by simp [View.leaves], ?_⟩
+    have := ravel_lt _ _ hin
+    simp only [prod_cons, prod_nil, Nat.mul_one] at this
+    rw [hw.1.1]; exact this
   · intro _ a b ha hb h
     simp only [View.specCell, Option.some.injEq, Prod.mk.injEq, true_and] at h
     simp only [View.shape, lens_cons, lens_nil] at ha hb
@@ -319,8 +343,8 @@ theorem resolves_matrix (id : Nat) (m : Matrix α) (r c : ν) : Resolves (View.m
 
 theorem View.resolves (v : View ν α) : v.WF → Resolves v := by
   induction v using View.ind with
-  | tensor id t => intro _; exact resolves_tensor id t
-  | matrix id m r c => intro _; exact resolves_matrix id m r c
+  | tensor id t => intro hw; exact resolves_tensor id t hw
+  | matrix id m r c => intro hw; exact resolves_matrix id m r c hw
   | range s rs ih =>
     intro hw
     simp only [View.WF] at hw
@@ -535,7 +559,8 @@ theorem View.resolves (v : View ν α) : v.WF → Resolves v := by
       obtain ⟨hk, hinb, hcell, _⟩ := pick idx hin
       have hv := List.getElem_mem hk
       obtain ⟨c, hc, hcm⟩ := (ih _ hv (hwfs _ hv)).1 _ hinb
-      exact ⟨c, by rw [hcell, hc], by rw [leafIds_stack]; exact mem_idsOf hk hcm⟩
+      obtain ⟨data, hd1, hd2⟩ := hcm
+      exact ⟨c, by rw [hcell, hc], data, by simp only [View.leaves]; exact mem_leavesList hk hd1, hd2⟩
     · intro hn a b hina hinb h
       rw [leafIds_stack] at hn
       obtain ⟨hka, ha1, ha2, ha3⟩ := pick a hina
@@ -549,7 +574,8 @@ theorem View.resolves (v : View ν α) : v.WF → Resolves v := by
       rw [ha2, hb2, hca, hcb] at h
       simp only [Option.some.injEq] at h
       subst h
-      have hkk := idsOf_disjoint hn hka hkb hcma hcmb
+      have hkk := idsOf_disjoint hn hka hkb (leafIds_of_mem hcma.choose_spec.1)
+        (leafIds_of_mem hcmb.choose_spec.1)
       have hrest : a.eraseIdx along.1 = b.eraseIdx along.1 := by
         have hcb' := hcb
         simp only [← hkk] at hcb' hb1
@@ -612,7 +638,8 @@ theorem View.resolves (v : View ν α) : v.WF → Resolves v := by
       obtain ⟨k, j, hk, hinb, hcell, _, _⟩ := pick idx hin
       have hv := List.getElem_mem hk
       obtain ⟨c, hc, hcm⟩ := (ih _ hv (hwfs _ hv)).1 _ hinb
-      exact ⟨c, by rw [hcell, hc], by rw [leafIds_chain]; exact mem_idsOf hk hcm⟩
+      obtain ⟨data, hd1, hd2⟩ := hcm
+      exact ⟨c, by rw [hcell, hc], data, by simp only [View.leaves]; exact mem_leavesList hk hd1, hd2⟩
     · intro hn a b hina hinb h
       rw [leafIds_chain] at hn
       obtain ⟨ka, ja, hka, ha1, ha2, ha3, ha4⟩ := pick a hina
@@ -626,7 +653,8 @@ theorem View.resolves (v : View ν α) : v.WF → Resolves v := by
       rw [ha2, hb2, hca, hcb] at h
       simp only [Option.some.injEq] at h
       subst h
-      have hkk := idsOf_disjoint hn hka hkb hcma hcmb
+      have hkk := idsOf_disjoint hn hka hkb (leafIds_of_mem hcma.choose_spec.1)
+        (leafIds_of_mem hcmb.choose_spec.1)
       subst hkk
       have hset : a.set along ja = b.set along jb :=
         ra.2 (idsOf_nodup_getElem hn hka) _ _ ha1 hb1 (by rw [hca, hcb])
@@ -642,5 +670,12 @@ theorem View.specCell_isSome (v : View ν α) (h : v.WF) (idx : List Nat)
     (hin : inBounds (lens v.shape) idx = true) : (v.specCell idx).isSome = true := by
   obtain ⟨c, hc, _⟩ := (View.resolves v h).1 idx hin
   simp [hc]
+
+/-- the designated cell lies in one of the view's own leaves, inside its data -/
+theorem View.specCell_valid (v : View ν α) (h : v.WF) (idx : List Nat)
+    (hin : inBounds (lens v.shape) idx = true) :
+    ∃ c, v.specCell idx = some c ∧ c.1 ∈ v.leafIds ∧ ∃ data, (c.1, data) ∈ v.leaves ∧ c.2 < data.length := by
+  obtain ⟨c, hc, data, h1, h2⟩ := (View.resolves v h).1 idx hin
+  exact ⟨c, hc, leafIds_of_mem h1, data, h1, h2⟩
 
 end EasyMl
